@@ -1,7 +1,7 @@
 import ClapModel
 import Driver.L3
 namespace Clap.Driver
-open Clap BashGen
+open Clap BashGen CaseGen
 
 /-- `name nalias a.. nopts o.. nvopts v.. nsubs SUB..` (recursive, depth-bounded) -/
 def decGNode : Nat → Dec GNode
@@ -40,7 +40,45 @@ def handleBashCases (args : List String) : Option String :=
     pure (" ".intercalate cases ++ " | " ++ dets)
   (d.run args).map (·.1)
 
+def strB : Dec Shell.Str := do
+  let b ← hexB
+  ofOpt ((String.fromUTF8? (ByteArray.mk b.toArray)).map String.toList)
+
+def optStrB : Dec (Option Shell.Str) := do
+  let b ← optB
+  match b with
+  | none => pure none
+  | some x => ofOpt ((String.fromUTF8? (ByteArray.mk x.toArray)).map fun s => some s.toList)
+
+def decCOpt : Dec COpt := do
+  let shorts ← listOf strB
+  let longs ← listOf strB
+  let help ← optStrB
+  let t ← tok
+  pure { shorts, longs, help, takes := t == "1" }
+
+/-- `nnames name.. about|~ nopts OPT.. nsubs SUB..` -/
+def decCNode : Nat → Dec CNode
+  | 0 => failure
+  | fuel+1 => do
+    let names ← listOf strB
+    let about ← optStrB
+    let opts ← listOf decCOpt
+    let subs ← listOf (decCNode fuel)
+    pure (.mk names about opts subs)
+
+/-- `casegen <elvish|pwsh> <bin> TREE` → hex of the whole script -/
+def handleCaseGen (args : List String) : Option String :=
+  let d : Dec String := do
+    let t ← tok
+    let sh ← ofOpt (if t == "elvish" then some Sh2.elvish else if t == "pwsh" then some Sh2.pwsh else none)
+    let bin ← strB
+    let root ← decCNode 8
+    pure (hexOfBytes (String.ofList (script sh bin root)).toUTF8.toList)
+  (d.run args).map (·.1)
+
 def handleL7 (cmd : String) (args : List String) : Option String :=
+  if cmd == "casegen" then some ((handleCaseGen args).getD "bad-op") else
   if cmd == "bashc" then some ((handleBashc args).getD "bad-op")
   else if cmd == "bashcases" then some ((handleBashCases args).getD "bad-op")
   else none
